@@ -22,6 +22,7 @@ import (
 	"sort"
 	"strconv"
 	"sync"
+	"sync/atomic"
 	"time"
 )
 
@@ -92,6 +93,7 @@ type Report struct {
 	ModelCalls         int64          `json:"model_calls"`
 	RealDeaths         int64          `json:"real_child_deaths_or_timeouts"`
 	ModelSkip          int            `json:"model_evaluations_skipped"`
+	SkipWhy            []string       `json:"model_skip_reasons,omitempty"`
 	Dist               *Dist          `json:"distribution"`
 	RealClass          map[string]int `json:"real_outcome_classes"`
 	ModelClass         map[string]int `json:"model_outcome_classes"`
@@ -124,6 +126,8 @@ func loadCase(path string) (*Case, error) {
 	}
 	return caseFromJSON(j)
 }
+
+var nPropertyFindings atomic.Int64
 
 func main() {
 	if len(os.Args) >= 4 && os.Args[1] == "-child" {
@@ -276,10 +280,16 @@ func main() {
 		go func(w *Worker) {
 			defer wg.Done()
 			for i := range next {
-				if time.Now().After(stop) {
+				// past the deadline, or the property is refuted many times over already: the rest is not run
+				if time.Now().After(stop) || nPropertyFindings.Load() >= 60 {
 					continue
 				}
 				results[i] = w.eval(cases[i])
+				for _, f := range results[i].Findings {
+					if f.Level == "property" {
+						nPropertyFindings.Add(1)
+					}
+				}
 			}
 		}(ws[k])
 	}
@@ -296,6 +306,11 @@ func main() {
 		rep.CasesRun++
 		rep.Evaluations += r.Evaluations
 		rep.ModelSkip += r.ModelSkipped
+		for _, why := range r.SkipReasons {
+			if len(rep.SkipWhy) < 8 {
+				rep.SkipWhy = append(rep.SkipWhy, fmt.Sprintf("case %d (%s): %s", cases[i].ID, cases[i].Origin, why))
+			}
+		}
 		addMap(rep.RealClass, r.RealClass)
 		addMap(rep.ModelClass, r.ModelClass)
 		addMap(rep.ErrKinds, r.ErrKinds)
